@@ -42,6 +42,30 @@ def rubyElem (x y : List Char) : Ordering :=
 /-- `compareRubyGemsComponents`: positions padded with "0" -/
 def cmpRuby (a b : List (List Char)) : Ordering := cmpPad rubyElem ['0'] a b
 
-def rubygemsFam : Family := ⟨List (List Char), fun s => .ok (rubySegs s), fun v w => .ord (cmpRuby v w)⟩
+/-! ### as the Go code writes them, with failing index / slice sites (`none` = run-time panic) -/
+
+/-- the loop of `removeZeros`: `for i >= 0 { if segs[i] != "0" { i++; break }; i-- }`; the value is the
+final `i` (−1 when every segment is "0" or there is none). One unit of fuel per iteration. -/
+def rzLoop (segs : List (List Char)) : Nat → Int → Option Int
+  | 0, i => some i
+  | fuel + 1, i =>
+    if 0 ≤ i then
+      (goIndex segs i.toNat).bind fun s => if s ≠ ['0'] then some (i + 1) else rzLoop segs fuel (i - 1)
+    else some i
+
+/-- `removeZeros` as written: `i := len(segs) - 1`, the loop, `segs[:max(i, 0)]` (version-rubygems.go:70) -/
+def removeZerosGo (segs : List (List Char)) : Option (List (List Char)) :=
+  (rzLoop segs (segs.length + 1) ((segs.length : Int) - 1)).bind fun i => goSlice segs 0 (max i 0)
+
+def rubySegsGo (s : List Char) : Option (List (List Char)) :=
+  let segs := splitOn '.' (canonRuby s)
+  let nums := segs.takeWhile (fun x => (toBig x).isSome)
+  let build := segs.dropWhile (fun x => (toBig x).isSome)
+  (removeZerosGo nums).bind fun n => (removeZerosGo build).bind fun b => some (n ++ b)
+
+/-- `compareRubyGemsComponents` as written: `fetch(a, i, "0")`, `fetch(b, i, "0")` (utilities.go:39) -/
+def cmpRubyGo (a b : List (List Char)) : Option Ordering := cmpPadGo (fun x y => some (rubyElem x y)) ['0'] a b
+
+def rubygemsFam : Family := ⟨List (List Char), fun s => .ofGo (rubySegsGo s), fun v w => .ofGo (cmpRubyGo v w)⟩
 
 end Scalibr.Semantic
